@@ -377,6 +377,10 @@ def d4(cx: Cx, ob: Ob) -> None:
     arg = ("param", fn.params[1].name)
     conv = ("attr", me, "converter")
     saw_none = saw_list = False
+    through = any(op(c[1]) == "attr" and c[1][1] == conv and c[1][2] in ("parse_uri", "expand_pair_all") for c, _, _ in s.calls())
+    if not through:
+        ob.funnel(fn.qualname, fn.where, "_expand_pair_all answers without converter.parse_uri / expand_pair_all", False, "converter.parse_uri / expand_pair_all")
+        return
     for t, ctx in s.returns():
         line = ctx.path.out[2]
         ob.site(f"{where(fn, line)} {fn.qualname}", f"return {show(t)[:80]}")
@@ -769,7 +773,11 @@ def d9(cx: Cx, ob: Ob) -> None:
             missing = sorted(show(a)[:40] + "=" + str(p) for a, p in want - atoms)
             ob.violate(o.qualname, where(o, ev.line), f"_optimize_node swaps under a different condition (missing {missing}, extra {extra})", detail="swap-condition")
     rec = [(c, ev, ctx) for c, ev, ctx in os_.calls("_optimize_node") if ctx.loops]
-    if not rec:
+    if not rec and any(ev.kind == "while" for ev, _ in os_.walk()):
+        # an explicit work list instead of recursion: that every child is pushed and every pushed node visited is a
+        # loop invariant, not a call shape
+        ob.undecide("_optimize_node walks the algebra with a `while` loop over a work list instead of recursing: coverage of the tree is not decided")
+    elif not rec:
         ob.violate(o.qualname, o.where, "_optimize_node does not recurse into the children of a node: a misplaced VALUES deeper in the algebra stays where it is", detail="no-recursion")
     for c, ev, ctx in rec[:1]:
         lp = ctx.loops[-1]
